@@ -1,17 +1,23 @@
 /-
   C16 - linesplit word-wraps without losing, reordering or restyling words.
 
-  STATUS: PARTIAL. The full statement is `C16_full_statement` below (kept visible, not proved). Proved, for every
-  Unicode environment `u` (`isSpace` = the regex class `\s`), every FmtStr in any run layout:
-  * `C16_len_partial`      - no returned line is longer than `columns` (every `columns`);
-  * `C16_total_partial`    - for `columns ≥ 1` nothing is raised (the words the scanner extracts are non-empty, so
-                             `lines[-1]` exists; every gap has a run, so `shared_atts` is defined);
-  * `C16_wordless_partial` - empty or whitespace-only text gives `[]`.
-  Missing (covered on every run by the exhaustive correspondence + oracle of harness/props/c16.py only): that the
-  scanner's words/gaps are the maximal non-space/space runs of `cells f` (`specWords`), and the loop-level facts
-  `Greedy` expresses - the greedy fit rule `len cur + 1 + len w ≤ columns`, chopping of long words into
-  full-length pieces, words kept in order with their formatting, each joining space being one `' '` carrying
-  the attributes common to the whole gap (`gapAtts`), no line starting or ending with whitespace.
+  STATUS: FULL. For every Unicode environment `u` (`isSpace` = the regex class `\s`), every FmtStr in any run
+  layout and every `columns ≥ 1`:
+  * `C16_full : C16_full_statement` - `linesplit` raises nothing and, with `(gap, word)` the maximal whitespace /
+    non-whitespace runs of `cells f` (`specWords`, an independent left-to-right grouping), the lines are the
+    first word chopped into full-length pieces (`Chopped`) followed by what the relation `Greedy` allows:
+    a word joins the current line - after ONE space carrying the attributes common to ALL cells of the gap it
+    replaces (`gapAtts`) - iff `len cur + 1 + len w ≤ columns`, otherwise the line is closed and the word starts
+    a new one, cut into full-length pieces when longer than a line. Characters keep their formatting because
+    everything is stated on cells.
+  Plain-terms corollaries:
+  * `C16_len`         - no line is longer than `columns` (every `columns`);
+  * `C16_total`       - nothing is raised for `columns ≥ 1`;
+  * `C16_wordless`    - empty or whitespace-only text gives `[]`;
+  * `C16_clean_lines` - no line is empty, starts with whitespace or ends with whitespace;
+  * `C16_words_kept`  - the non-whitespace cells of the lines, in order, are exactly those of the text.
+  The only hypothesis beyond `columns ≥ 1` is `u.isSpace ' ' = true` (the joining character is whitespace), used by
+  the last two.
 -/
 import Curtsies.Proofs.Width
 import Curtsies.Proofs.Slice
@@ -49,7 +55,7 @@ inductive Greedy (columns : Nat) : List Cell → List (List Cell × Atts) → Li
       ¬ (cur.length + 1 + w.length ≤ columns) → Chopped columns w full last →
       Greedy columns last rest out → Greedy columns cur ((w, a) :: rest) (cur :: full ++ out)
 
-/-- The full statement of C16 (NOT proved; see the header). -/
+/-- The full statement of C16 (proved below as `C16_full`). -/
 def C16_full_statement : Prop :=
   ∀ (u : UEnv) (f : FmtStr) (columns : Nat), 1 ≤ columns → u.isSpace ' ' = true →
     ∃ lines, linesplit u f columns = .ok lines ∧
@@ -135,7 +141,7 @@ private theorem linesplitLoop_len (columns : Nat) (pairs : List (FmtStr × FmtSt
           · exact wordToLines_len hw l hl2
 
 /-- no line is longer than `columns` -/
-theorem C16_len_partial (u : UEnv) (f : FmtStr) (columns : Nat) (lines : List FmtStr)
+theorem C16_len (u : UEnv) (f : FmtStr) (columns : Nat) (lines : List FmtStr)
     (h : linesplit u f columns = .ok lines) : ∀ l ∈ lines, len l ≤ columns := by
   unfold linesplit at h
   simp only [] at h
@@ -292,7 +298,7 @@ private theorem linesplitLoop_ok (columns : Nat) (hc : 1 ≤ columns) (pairs : L
         exact ih _ (by simp [hl]) hrest
 
 /-- `linesplit` raises nothing for `columns ≥ 1` (whatever the Unicode environment and the run layout). -/
-theorem C16_total_partial (u : UEnv) (f : FmtStr) (columns : Nat) (hc : 1 ≤ columns) :
+theorem C16_total (u : UEnv) (f : FmtStr) (columns : Nat) (hc : 1 ≤ columns) :
     ∃ lines, linesplit u f columns = .ok lines := by
   unfold linesplit
   simp only []
@@ -338,7 +344,7 @@ private theorem spaceMatches_allspace (u : UEnv) (t : List Char) (i : Nat) (h : 
       simp
 
 /-- Text without a word (empty, or whitespace only) gives no lines - for every `columns`, no exception. -/
-theorem C16_wordless_partial (u : UEnv) (f : FmtStr) (columns : Nat) (h : ∀ c ∈ text f, u.isSpace c = true) :
+theorem C16_wordless (u : UEnv) (f : FmtStr) (columns : Nat) (h : ∀ c ∈ text f, u.isSpace c = true) :
     linesplit u f columns = .ok [] := by
   have hm := (spaceMatches_allspace u (text f) 0 h).2
   have hw : linesplitWords f (spaceMatches u (text f) 0 none) = [] := by
@@ -353,6 +359,623 @@ theorem C16_wordless_partial (u : UEnv) (f : FmtStr) (columns : Nat) (h : ∀ c 
   unfold linesplit
   simp only [hw]
 
+
+
+/-! ### the full statement: scanner = maximal runs, chopping, greedy loop -/
+
+def sl (L : List Cell) (p : Nat × Nat) : List Cell := (L.take p.2).drop p.1
+
+def wordsR (prev : Nat) : List (Nat × Nat) → Nat → List (Nat × Nat)
+  | [], n => [(prev, n)]
+  | (s, e) :: r, n => (prev, s) :: wordsR e r n
+
+def wordsAfter : List (Nat × Nat) → Nat → List (Nat × Nat)
+  | [], _ => []
+  | (_, e) :: r, n => wordsR e r n
+
+def mW (L : List Cell) (segs : List (Nat × Nat)) : List (List Cell) :=
+  (segs.filter fun p => p.1 ≠ p.2).map (sl L)
+def mS (L : List Cell) (ms : List (Nat × Nat)) : List (List Cell) :=
+  (ms.filter fun m => m.1 ≠ 0 ∧ m.2 ≠ L.length).map (sl L)
+
+private theorem zip_eq_wordsR (prev n : Nat) (ms : List (Nat × Nat)) :
+    List.zip (prev :: ms.map Prod.snd) (ms.map Prod.fst ++ [n]) = wordsR prev ms n := by
+  induction ms generalizing prev with
+  | nil => rfl
+  | cons m r ih => obtain ⟨s, e⟩ := m; simp [wordsR, ← ih]
+
+private theorem specWords_head (u : UEnv) (suf gap word : List Cell) (h : word ≠ []) :
+    ∃ w' tl, specWords u suf gap word = (gap, w') :: tl := by
+  induction suf generalizing word with
+  | nil =>
+    unfold specWords
+    have : word.isEmpty = false := by cases word <;> simp_all
+    simp [this]
+  | cons x r ih =>
+    unfold specWords
+    by_cases hs : u.isSpace x.1
+    · have : word.isEmpty = false := by cases word <;> simp_all
+      simp [hs, this]
+    · simp only [hs]
+      exact ih (word ++ [x]) (by simp)
+
+private theorem sl_pre (pre suf : List Cell) (a : Nat) : sl (pre ++ suf) (a, pre.length) = pre.drop a := by
+  simp [sl]
+
+
+private theorem spaceMatches_some_cons (u : UEnv) (t : List Char) (i st : Nat) :
+    ∃ e r, spaceMatches u t i (some st) = (st, e) :: r := by
+  induction t generalizing i with
+  | nil => exact ⟨i, [], rfl⟩
+  | cons c rest ih =>
+    by_cases h : u.isSpace c
+    · simp only [spaceMatches, h, if_true, Option.getD_some]; exact ih (i + 1)
+    · simp only [spaceMatches, h]; exact ⟨i, _, rfl⟩
+
+private theorem isEmpty_false_of_ne {α} {l : List α} (h : l ≠ []) : l.isEmpty = false := by
+  cases l <;> simp_all
+
+private theorem scan_spec (u : UEnv) (L : List Cell) (suf : List Cell) :
+    ∀ pre : List Cell, L = pre ++ suf →
+    (∀ ws gap, ws ≤ pre.length → (pre.length = 0 → gap = []) → (0 < pre.length → ws < pre.length) →
+      mW L (wordsR ws (spaceMatches u (suf.map Prod.fst) pre.length none) L.length)
+          = (specWords u suf gap (pre.drop ws)).map Prod.snd ∧
+        mS L (spaceMatches u (suf.map Prod.fst) pre.length none)
+          = (specWords u suf gap (pre.drop ws)).tail.map Prod.fst) ∧
+    (∀ st, st < pre.length →
+      mW L (wordsAfter (spaceMatches u (suf.map Prod.fst) pre.length (some st)) L.length)
+          = (specWords u suf (pre.drop st) []).map Prod.snd ∧
+        mS L (spaceMatches u (suf.map Prod.fst) pre.length (some st))
+          = (if st = 0 then (specWords u suf (pre.drop st) []).tail
+             else specWords u suf (pre.drop st) []).map Prod.fst) := by
+  induction suf with
+  | nil =>
+    intro pre hL
+    have hn : L.length = pre.length := by rw [hL]; simp
+    constructor
+    · intro ws gap hws hgap hlt
+      simp only [List.map_nil, spaceMatches, wordsR, specWords]
+      by_cases hw : ws = pre.length
+      · have : pre.drop ws = [] := by rw [hw]; simp
+        simp [this, mW, mS, hn, hw]
+      · have hne : pre.drop ws ≠ [] := by
+          intro h; have := congrArg List.length h; simp at this; omega
+        simp [isEmpty_false_of_ne hne, mW, mS, hn, hw]
+        rw [hL, ← hn]; simp [sl, hn]
+    · intro st hst
+      simp [spaceMatches, wordsAfter, wordsR, specWords, mW, mS, hn]
+  | cons x suf' ih =>
+    intro pre hL
+    have hL' : L = (pre ++ [x]) ++ suf' := by rw [hL]; simp
+    have ih' := ih (pre ++ [x]) hL'
+    have hlen : (pre ++ [x]).length = pre.length + 1 := by simp
+    rw [hlen] at ih'
+    have hnlt : pre.length < L.length := by rw [hL]; simp
+    have hdrop : ∀ k, k ≤ pre.length → (pre ++ [x]).drop k = pre.drop k ++ [x] :=
+      fun k hk => List.drop_append_of_le_length hk
+    have hdropi : (pre ++ [x]).drop pre.length = [x] := by simp
+    have hslpre : ∀ a, sl L (a, pre.length) = pre.drop a := fun a => by rw [hL]; exact sl_pre _ _ _
+    constructor
+    · intro ws gap hws hgap hlt
+      by_cases hs : u.isSpace x.1
+      · obtain ⟨e, r, hshape⟩ := spaceMatches_some_cons u (suf'.map Prod.fst) (pre.length + 1) pre.length
+        have hsome := ih'.2 pre.length (by omega)
+        rw [hdropi, hshape] at hsome
+        simp only [List.map_cons, spaceMatches, specWords, hs, if_true, Option.getD_none, hshape]
+        simp only [wordsAfter] at hsome
+        by_cases hw : ws = pre.length
+        · -- at the very start of the string
+          have hz : pre.length = 0 := by
+            by_cases h0 : 0 < pre.length
+            · have := hlt h0; omega
+            · omega
+          have hg := hgap hz
+          subst hg
+          have hde : pre.drop ws = [] := by rw [hw]; simp
+          rw [hz] at hsome ⊢
+          simp only [hde, List.isEmpty_nil, if_true, List.nil_append] at hsome ⊢
+          refine ⟨?_, hsome.2⟩
+          rw [← hsome.1]
+          have : ws = 0 := by omega
+          subst this
+          simp [wordsR, mW, hz]
+        · have hne : pre.drop ws ≠ [] := by
+            intro h; have := congrArg List.length h; simp at this; omega
+          have hpos : pre.length ≠ 0 := by omega
+          simp only [isEmpty_false_of_ne hne, if_neg hpos] at hsome ⊢
+          simp only [Bool.false_eq_true, if_false, List.map_cons, List.tail_cons]
+          refine ⟨?_, hsome.2⟩
+          rw [← hsome.1]
+          simp [wordsR, mW, hw, hslpre]
+      · have hnone := ih'.1 ws gap (by omega) (by omega) (by omega)
+        rw [hdrop ws hws] at hnone
+        simp only [List.map_cons, spaceMatches, specWords, hs, Bool.false_eq_true, if_false]
+        exact hnone
+    · intro st hst
+      by_cases hs : u.isSpace x.1
+      · have hsome := ih'.2 st (by omega)
+        rw [hdrop st (by omega)] at hsome
+        simp only [List.map_cons, spaceMatches, specWords, hs, if_true, Option.getD_some, List.isEmpty_nil]
+        exact hsome
+      · have hnone := ih'.1 pre.length (pre.drop st) (by omega) (by omega) (by omega)
+        rw [hdropi] at hnone
+        simp only [List.map_cons, spaceMatches, specWords, hs, List.nil_append, wordsAfter,
+          Bool.false_eq_true, if_false]
+        refine ⟨hnone.1, ?_⟩
+        obtain ⟨w', tl, hP⟩ := specWords_head u suf' (pre.drop st) [x] (by simp)
+        rw [hP] at hnone ⊢
+        have hm := hnone.2
+        simp only [List.tail_cons] at hm
+        by_cases h0 : st = 0
+        · simp only [mS] at hm ⊢
+          rw [if_pos h0, List.filter_cons_of_neg (by simp [h0])]
+          exact hm
+        · simp only [if_neg h0, List.map_cons]
+          simp only [mS] at hm ⊢
+          rw [List.filter_cons, if_pos (by simp; omega), List.map_cons, hm, hslpre]
+
+/-- the model's word and gap extraction computes the maximal runs of the specification -/
+theorem words_spaces_spec (u : UEnv) (f : FmtStr) :
+    (linesplitWords f (spaceMatches u (text f) 0 none)).map cells
+        = (specWords u (cells f) [] []).map Prod.snd ∧
+    (linesplitSpaces f (spaceMatches u (text f) 0 none)).map cells
+        = (specWords u (cells f) [] []).tail.map Prod.fst := by
+  have h := (scan_spec u (cells f) (cells f) [] rfl).1 0 [] (Nat.le_refl _) (fun _ => rfl)
+    (fun h => absurd h (Nat.lt_irrefl _))
+  simp only [List.length_nil, List.drop_nil, ← text_eq_cells, cells_length] at h
+  constructor
+  · rw [← h.1, ← zip_eq_wordsR]
+    simp only [linesplitWords, mW, List.map_map]
+    apply List.map_congr_left
+    intro p _
+    simp [sl, getslice_cells']
+  · rw [← h.2]
+    simp only [linesplitSpaces, mS, List.map_map, cells_length]
+    apply List.map_congr_left
+    intro p _
+    simp [sl, getslice_cells']
+
+/-! #### chopping -/
+
+private theorem take_append_drop_take {α} (l : List α) (a b : Nat) (h : a ≤ b) :
+    l.take a ++ (l.take b).drop a = l.take b := by
+  have : l.take a = (l.take b).take a := by rw [List.take_take, Nat.min_eq_left h]
+  rw [this, List.take_append_drop]
+
+private theorem pieces_flatten {α} (w : List α) (c q : Nat) :
+    ((List.range q).map fun i => (w.take (c * (i + 1))).drop (c * i)).flatten = w.take (c * q) := by
+  induction q with
+  | zero => simp
+  | succ q ih =>
+    rw [List.range_succ, List.map_append, List.flatten_append, ih]
+    simp only [List.map_cons, List.map_nil, List.flatten_cons, List.flatten_nil, List.append_nil]
+    exact take_append_drop_take w _ _ (Nat.mul_le_mul_left c (Nat.le_succ q))
+
+private theorem wordToLines_chopped {columns : Nat} (hc : 1 ≤ columns) (word : FmtStr) (hw : 0 < len word) :
+    ∃ ls0 lastF, wordToLines columns word = .ok (ls0 ++ [lastF]) ∧
+      Chopped columns (cells word) (ls0.map cells) (cells lastF) := by
+  have hn : (cells word).length = len word := cells_length word
+  have hk : ((((len word : Nat) : Int) - 1) / (columns : Int) + 1).toNat = (len word - 1) / columns + 1 := by
+    have e : ((len word : Nat) : Int) - 1 = ((len word - 1 : Nat) : Int) := by omega
+    rw [e]
+    have h2 : (0 : Int) ≤ ((len word - 1 : Nat) : Int) / (columns : Int) :=
+      Int.ediv_nonneg (by omega) (by omega)
+    omega
+  have hq1 : columns * ((len word - 1) / columns) ≤ len word - 1 := Nat.mul_div_le _ _
+  have hq2 : len word - 1 < columns * ((len word - 1) / columns + 1) := Nat.lt_mul_div_succ _ (by omega)
+  refine ⟨(List.range ((len word - 1) / columns)).map fun i => getslice word (columns * i) (columns * (i + 1)),
+    getslice word (columns * ((len word - 1) / columns)) (columns * ((len word - 1) / columns + 1)), ?_, ?_⟩
+  · unfold wordToLines
+    rw [if_neg (by omega), hk, List.range_succ, List.map_append]
+    rfl
+  · generalize (len word - 1) / columns = q at hq1 hq2
+    have hmap : ((List.range q).map fun i => getslice word (columns * i) (columns * (i + 1))).map cells
+        = (List.range q).map fun i => ((cells word).take (columns * (i + 1))).drop (columns * i) := by
+      rw [List.map_map]; apply List.map_congr_left; intro i _; simp [getslice_cells']
+    rw [hmap, getslice_cells']
+    refine ⟨?_, ?_, ?_, ?_⟩
+    · rw [pieces_flatten, List.take_of_length_le (l := cells word) (i := columns * (q + 1)) (by omega)]
+      exact (List.take_append_drop _ _).symm
+    · intro p hp
+      obtain ⟨i, hi, rfl⟩ := List.mem_map.mp hp
+      have hi' : i + 1 ≤ q := by have := List.mem_range.mp hi; omega
+      have := Nat.mul_le_mul_left columns hi'
+      rw [List.length_drop, List.length_take, Nat.mul_succ]
+      rw [Nat.mul_succ] at this
+      omega
+    · rw [List.length_drop, List.length_take]; omega
+    · rw [List.length_drop, List.length_take, Nat.mul_succ]; rw [Nat.mul_succ] at hq2; omega
+
+/-- cells of a text all carrying the same attributes -/
+def mkCells' (s : Text) (a : Atts) : List Cell := s.map fun ch => (ch, a)
+
+/-! #### the joining space: `shared_atts` of a gap = the attributes common to all its cells -/
+
+private theorem optInter_idem {α} [DecidableEq α] (x a : Option α) :
+    (if (if x = a then x else none) = a then (if x = a then x else none) else none)
+      = (if x = a then x else none) := by
+  by_cases h : x = a
+  · simp [h]
+  · simp [h]
+private theorem Atts.inter_inter_self (x a : Atts) : (x.inter a).inter a = x.inter a := by
+  simp only [Atts.inter]
+  congr 1 <;> exact optInter_idem _ _
+private theorem Atts.inter_self (a : Atts) : a.inter a = a := by
+  simp [Atts.inter]
+
+private theorem fold_same (a : Atts) (s : Text) (hs : s ≠ []) (acc : Atts) :
+    (mkCells' s a).foldl (fun x y => x.inter y.2) acc = acc.inter a := by
+  induction s generalizing acc with
+  | nil => exact absurd rfl hs
+  | cons c r ih =>
+    cases r with
+    | nil => simp [mkCells']
+    | cons c' r' =>
+      have := ih (by simp) (acc.inter a)
+      simp only [mkCells', List.map_cons, List.foldl_cons] at this ⊢
+      rw [this, Atts.inter_inter_self]
+
+private theorem cells_fold (f : FmtStr) (acc : Atts) :
+    (cells f).foldl (fun x y => x.inter y.2) acc
+      = (f.filter fun c => !c.s.isEmpty).foldl (fun x c => x.inter c.atts) acc := by
+  induction f generalizing acc with
+  | nil => rfl
+  | cons c rest ih =>
+    rw [cells_cons, List.foldl_append]
+    by_cases he : c.s = []
+    · have : c.cells = [] := by simp [Chunk.cells, he]
+      rw [this, List.filter_cons_of_neg (by simp [he])]
+      exact ih acc
+    · rw [List.filter_cons_of_pos (by simpa using he), List.foldl_cons]
+      have : c.cells = mkCells' c.s c.atts := rfl
+      rw [this, fold_same _ _ he]
+      exact ih _
+
+theorem sharedAtts_eq_gapAtts (f : FmtStr) (h : cells f ≠ []) :
+    sharedAtts f = .ok (gapAtts (cells f)) := by
+  induction f with
+  | nil => exact absurd rfl h
+  | cons c rest ih =>
+    by_cases he : c.s = []
+    · have hc : c.cells = [] := by simp [Chunk.cells, he]
+      have hrest : cells rest ≠ [] := by simpa [hc] using h
+      rw [cells_cons, hc, List.nil_append, ← ih hrest]
+      cases rest with
+      | nil => exact absurd rfl hrest
+      | cons d rest' =>
+        have hne : ((d :: rest').filter fun c => !c.s.isEmpty) ≠ [] := by
+          intro h0
+          have := cells_fold (d :: rest') {}
+          apply hrest
+          -- no non-empty chunk means no cells
+          clear this ih
+          have : ∀ (g : FmtStr), (g.filter fun c => !c.s.isEmpty) = [] → cells g = [] := by
+            intro g
+            induction g with
+            | nil => intro _; rfl
+            | cons e g ihg =>
+              intro hg
+              by_cases hee : e.s = []
+              · rw [List.filter_cons_of_neg (by simp [hee])] at hg
+                simp [Chunk.cells, hee, ihg hg]
+              · rw [List.filter_cons_of_pos (by simpa using hee)] at hg
+                cases hg
+          exact this _ h0
+        simp only [sharedAtts]
+        rw [List.filter_cons_of_neg (by simp [he])]
+        cases hfl : (d :: rest').filter (fun c => !c.s.isEmpty) with
+        | nil => exact absurd hfl hne
+        | cons e es => rfl
+    · obtain ⟨ch, r, hs⟩ := List.exists_cons_of_ne_nil he
+      simp only [sharedAtts]
+      rw [List.filter_cons_of_pos (by simpa using he)]
+      simp only [List.foldl_cons, Atts.inter_self]
+      congr 1
+      rw [cells_cons]
+      have hcells : c.cells = (ch, c.atts) :: mkCells' r c.atts := by
+        simp [Chunk.cells, mkCells', hs]
+      rw [hcells]
+      simp only [List.cons_append, gapAtts, List.foldl_append]
+      rw [← cells_fold]
+      congr 1
+      by_cases hr : r = []
+      · simp [hr, mkCells']
+      · rw [fold_same _ _ hr, Atts.inter_self]
+
+/-! #### the greedy loop -/
+
+private theorem linesplitLoop_greedy (columns : Nat) (hc : 1 ≤ columns) (pairs : List (FmtStr × FmtStr))
+    (hp : ∀ p ∈ pairs, 0 < len p.1 ∧ cells p.2 ≠ []) (done : List FmtStr) (cur : FmtStr) :
+    ∃ result out, linesplitLoop columns (done ++ [cur]) pairs = .ok result ∧
+      result.map cells = done.map cells ++ out ∧
+      Greedy columns (cells cur) (pairs.map fun p => (cells p.1, gapAtts (cells p.2))) out := by
+  induction pairs generalizing done cur with
+  | nil => exact ⟨done ++ [cur], [cells cur], rfl, by simp, Greedy.done _⟩
+  | cons p rest ih =>
+    obtain ⟨word, space⟩ := p
+    have ⟨hw, hs⟩ := hp (word, space) (by simp)
+    have hrest : ∀ p ∈ rest, 0 < len p.1 ∧ cells p.2 ≠ [] := fun p h => hp p (by simp [h])
+    unfold linesplitLoop
+    have hlast : (done ++ [cur]).getLast? = some cur := by simp
+    rw [hlast]
+    simp only [List.map_cons]
+    by_cases hfit : len cur + len word < columns
+    · rw [if_pos hfit, sharedAtts_eq_gapAtts space hs]
+      simp only [bind, Except.bind, List.dropLast_concat]
+      obtain ⟨result, out, h1, h2, h3⟩ := ih hrest done (add (add cur (spaceFmt (gapAtts (cells space)))) word)
+      refine ⟨result, out, h1, h2, ?_⟩
+      apply Greedy.join
+      · rw [cells_length, cells_length]; omega
+      · have : cells (add (add cur (spaceFmt (gapAtts (cells space)))) word)
+            = cells cur ++ (' ', gapAtts (cells space)) :: cells word := by
+          simp [add, spaceFmt, Chunk.cells]
+        rw [this] at h3
+        exact h3
+    · rw [if_neg hfit]
+      obtain ⟨ls0, lastF, hl, hch⟩ := wordToLines_chopped hc word hw
+      rw [hl]
+      simp only [bind, Except.bind]
+      obtain ⟨result, out, h1, h2, h3⟩ := ih hrest (done ++ [cur] ++ ls0) lastF
+      rw [← List.append_assoc]
+      refine ⟨result, cells cur :: (ls0.map cells ++ out), h1, ?_, ?_⟩
+      · rw [h2]; simp
+      · apply Greedy.wrap ?_ hch h3
+        rw [cells_length, cells_length]; omega
+
+private theorem zip_map_eq {α β γ δ ε} (ws : List α) (sp : List β) (rest : List (γ × δ))
+    (fw : α → δ) (fs : β → γ) (g : γ → ε)
+    (h1 : ws.map fw = rest.map Prod.snd) (h2 : sp.map fs = rest.map Prod.fst) :
+    (List.zip ws sp).map (fun p => (fw p.1, g (fs p.2))) = rest.map fun p => (p.2, g p.1) := by
+  induction rest generalizing ws sp with
+  | nil =>
+    have : ws = [] := by simpa using h1
+    subst this; rfl
+  | cons r rest ih =>
+    cases ws with
+    | nil => simp at h1
+    | cons w ws =>
+      cases sp with
+      | nil => simp at h2
+      | cons s sp =>
+        simp only [List.map_cons, List.cons.injEq] at h1 h2
+        simp only [List.zip_cons_cons, List.map_cons, h1.1, h2.1]
+        rw [ih ws sp h1.2 h2.2]
+
+theorem Chain.mem_bounds {lo hi : Nat} {ms : List (Nat × Nat)} (h : Chain lo ms hi) :
+    ∀ m ∈ ms, m.1 < m.2 ∧ m.2 ≤ hi := by
+  induction ms generalizing lo with
+  | nil => simp
+  | cons q rest ih =>
+    obtain ⟨s, e⟩ := q
+    intro m hm
+    rcases List.mem_cons.mp hm with rfl | hm
+    · exact ⟨h.2.1, h.2.2.le⟩
+    · exact ih h.2.2 m hm
+
+/-- C16, full statement: see `C16_full_statement`. -/
+theorem C16_full : C16_full_statement := by
+  intro u f columns hc _
+  have hpos := linesplitWords_pos u f
+  obtain ⟨hW, hS⟩ := words_spaces_spec u f
+  unfold linesplit
+  simp only []
+  cases hw : linesplitWords f (spaceMatches u (text f) 0 none) with
+  | nil =>
+    rw [hw] at hW
+    have : specWords u (cells f) [] [] = [] := by
+      cases h : specWords u (cells f) [] [] with
+      | nil => rfl
+      | cons a b => rw [h] at hW; simp at hW
+    rw [this]
+    exact ⟨[], rfl, rfl⟩
+  | cons w0 ws =>
+    rw [hw] at hW hpos
+    cases hP : specWords u (cells f) [] [] with
+    | nil => rw [hP] at hW; simp at hW
+    | cons p0 rest =>
+      obtain ⟨g0, c0⟩ := p0
+      rw [hP] at hW hS
+      simp only [List.map_cons, List.cons.injEq, List.tail_cons] at hW hS
+      simp only []
+      obtain ⟨ls0, lastF, hl, hch⟩ := wordToLines_chopped hc w0 (hpos w0 (by simp))
+      rw [hl]
+      simp only [bind, Except.bind]
+      have hpairs : ∀ p ∈ List.zip ws (linesplitSpaces f (spaceMatches u (text f) 0 none)),
+          0 < len p.1 ∧ cells p.2 ≠ [] := by
+        intro p hp
+        have h3 := List.of_mem_zip hp
+        refine ⟨hpos p.1 (by simp [h3.1]), ?_⟩
+        have := h3.2
+        unfold linesplitSpaces at this
+        obtain ⟨m, hm, hmeq⟩ := List.mem_map.mp this
+        have hch := (spaceMatches_chain u (text f) 0).1
+        rw [Nat.zero_add, text_length] at hch
+        have hb := hch.mem_bounds m (List.mem_filter.mp hm).1
+        rw [← hmeq]
+        intro h0
+        have := congrArg List.length h0
+        rw [cells_length, len_getslice] at this
+        simp at this
+        omega
+      obtain ⟨result, out, h1, h2, h3⟩ := linesplitLoop_greedy columns hc _ hpairs ls0 lastF
+      refine ⟨result, h1, ls0.map cells, cells lastF, out, ?_, ?_, h2⟩
+      · rw [← hW.1]; exact hch
+      · rw [← zip_map_eq ws _ rest cells cells gapAtts hW.2 hS]
+        exact h3
+
+/-! ### consequences of the full statement, in plain terms -/
+
+/-- not whitespace -/
+def nsp (u : UEnv) (x : Cell) : Bool := !u.isSpace x.1
+
+theorem specWords_filter (u : UEnv) (suf gap word : List Cell) :
+    ((specWords u suf gap word).flatMap Prod.snd).filter (nsp u) = (word ++ suf).filter (nsp u) := by
+  induction suf generalizing gap word with
+  | nil =>
+    unfold specWords
+    cases word with
+    | nil => simp
+    | cons a b => simp
+  | cons x rest ih =>
+    unfold specWords
+    by_cases hs : u.isSpace x.1
+    · have hx : nsp u x = false := by simp [nsp, hs]
+      cases word with
+      | nil =>
+        simp only [hs, if_true, List.isEmpty_nil, List.nil_append]
+        rw [ih, List.filter_cons_of_neg (by simp [hx])]; rfl
+      | cons a b =>
+        simp only [hs, if_true, List.isEmpty_cons, Bool.false_eq_true, if_false, List.flatMap_cons,
+          List.filter_append]
+        rw [ih, List.filter_cons_of_neg (a := x) (by simp [hx])]; rfl
+    · simp only [hs, Bool.false_eq_true, if_false]
+      rw [ih]; simp
+
+theorem Greedy.filter {u : UEnv} {columns : Nat} {cur : List Cell} {pairs : List (List Cell × Atts)}
+    {out : List (List Cell)} (h : Greedy columns cur pairs out) (hsp : u.isSpace ' ' = true) :
+    out.flatten.filter (nsp u) = (cur ++ pairs.flatMap Prod.fst).filter (nsp u) := by
+  induction h with
+  | done cur => simp
+  | @join cur w a rest out _ _ ih =>
+    rw [ih]
+    have : nsp u (' ', a) = false := by simp [nsp, hsp]
+    simp [List.filter_cons, this]
+  | @wrap cur w last a rest full out _ hch _ ih =>
+    simp only [List.flatten_cons, List.flatten_append, List.filter_append, ih, List.flatMap_cons]
+    rw [hch.1]
+    simp [List.filter_append]
+
+/-- every word of the specification is non-empty and free of whitespace -/
+theorem specWords_clean (u : UEnv) (suf gap word : List Cell) (hw : ∀ x ∈ word, u.isSpace x.1 = false) :
+    ∀ p ∈ specWords u suf gap word, p.2 ≠ [] ∧ ∀ x ∈ p.2, u.isSpace x.1 = false := by
+  induction suf generalizing gap word with
+  | nil =>
+    unfold specWords
+    cases word with
+    | nil => simp
+    | cons a b => intro p hp; simp at hp; subst hp; exact ⟨by simp, hw⟩
+  | cons x rest ih =>
+    unfold specWords
+    by_cases hs : u.isSpace x.1
+    · cases word with
+      | nil => simp only [hs, if_true, List.isEmpty_nil]; exact ih _ _ (by simp)
+      | cons a b =>
+        simp only [hs, if_true, List.isEmpty_cons, Bool.false_eq_true, if_false]
+        intro p hp
+        rcases List.mem_cons.mp hp with rfl | hp
+        · exact ⟨by simp, hw⟩
+        · exact ih _ _ (by simp) p hp
+    · simp only [hs, Bool.false_eq_true, if_false]
+      apply ih
+      intro y hy
+      rcases List.mem_append.mp hy with hy | hy
+      · exact hw y hy
+      · simp at hy; subst hy; simpa using hs
+
+private theorem getLast?_append_cons' {α} (c w : List α) (s : α) (h : w ≠ []) : (c ++ s :: w).getLast? = w.getLast? := by
+  cases w with
+  | nil => exact absurd rfl h
+  | cons a b =>
+    rw [List.getLast?_append, List.getLast?_cons_cons]
+    cases hl : (a :: b).getLast? with
+    | none => simp at hl
+    | some v => simp
+
+/-- a line that is non-empty and neither starts nor ends with whitespace -/
+def CleanLine (u : UEnv) (l : List Cell) : Prop :=
+  l ≠ [] ∧ (∀ x, l.head? = some x → u.isSpace x.1 = false) ∧ (∀ x, l.getLast? = some x → u.isSpace x.1 = false)
+
+theorem cleanLine_of_allns {u : UEnv} {l : List Cell} (h0 : l ≠ []) (h : ∀ x ∈ l, u.isSpace x.1 = false) :
+    CleanLine u l :=
+  ⟨h0, fun x hx => h x (List.mem_of_head? hx), fun x hx => h x (List.mem_of_getLast? hx)⟩
+
+theorem Greedy.clean {u : UEnv} {columns : Nat} {cur : List Cell} {pairs : List (List Cell × Atts)}
+    {out : List (List Cell)} (h : Greedy columns cur pairs out) (hc : 1 ≤ columns) (hcur : CleanLine u cur)
+    (hp : ∀ p ∈ pairs, p.1 ≠ [] ∧ ∀ x ∈ p.1, u.isSpace x.1 = false) : ∀ l ∈ out, CleanLine u l := by
+  induction h with
+  | done cur => intro l hl; simp at hl; subst hl; exact hcur
+  | @join cur w a rest out _ _ ih =>
+    have ⟨hw0, hw⟩ := hp (w, a) (by simp)
+    apply ih _ (fun p h => hp p (by simp [h]))
+    refine ⟨by simp, ?_, ?_⟩
+    · intro x hx
+      apply hcur.2.1 x
+      cases cur with
+      | nil => exact absurd rfl hcur.1
+      | cons c cs => simpa using hx
+    · intro x hx
+      rw [getLast?_append_cons' _ _ _ hw0] at hx
+      exact hw x (List.mem_of_getLast? hx)
+  | @wrap cur w last a rest full out _ hch _ ih =>
+    have ⟨hw0, hw⟩ := hp (w, a) (by simp)
+    have hlast : CleanLine u last := by
+      apply cleanLine_of_allns (List.length_pos_iff.mp hch.2.2.1)
+      intro x hx; apply hw; rw [hch.1]; simp [hx]
+    intro l hl
+    rcases List.mem_cons.mp hl with rfl | hl
+    · exact hcur
+    · rcases List.mem_append.mp hl with hl | hl
+      · apply cleanLine_of_allns
+        · apply List.length_pos_iff.mp; rw [hch.2.1 l hl]; omega
+        · intro x hx; apply hw; rw [hch.1]
+          exact List.mem_append_left _ (List.mem_flatten.mpr ⟨l, hl, hx⟩)
+      · exact ih hlast (fun p h => hp p (by simp [h])) l hl
+
+/-- No returned line is empty, starts with whitespace or ends with whitespace (`columns ≥ 1`). -/
+theorem C16_clean_lines (u : UEnv) (f : FmtStr) (columns : Nat) (hc : 1 ≤ columns)
+    (hsp : u.isSpace ' ' = true) :
+    ∃ lines, linesplit u f columns = .ok lines ∧ ∀ l ∈ lines, CleanLine u (cells l) := by
+  obtain ⟨lines, h1, h2⟩ := C16_full u f columns hc hsp
+  refine ⟨lines, h1, ?_⟩
+  have hclean := specWords_clean u (cells f) [] [] (by simp)
+  cases hP : specWords u (cells f) [] [] with
+  | nil => rw [hP] at h2; simp only [] at h2; subst h2; simp
+  | cons p0 rest =>
+    obtain ⟨g0, w0⟩ := p0
+    rw [hP] at h2 hclean
+    simp only [] at h2
+    obtain ⟨full, last, out, hch, hg, hl⟩ := h2
+    have ⟨hw0, hw⟩ := hclean (g0, w0) (by simp)
+    have hlast : CleanLine u last := by
+      apply cleanLine_of_allns (List.length_pos_iff.mp hch.2.2.1)
+      intro x hx; apply hw; rw [hch.1]; simp [hx]
+    have hout := hg.clean hc hlast (by
+      intro p hp
+      obtain ⟨q, hq, rfl⟩ := List.mem_map.mp hp
+      exact hclean q (by simp [hq]))
+    intro l hl2
+    have : cells l ∈ full ++ out := by rw [← hl]; exact List.mem_map.mpr ⟨l, hl2, rfl⟩
+    rcases List.mem_append.mp this with hm | hm
+    · apply cleanLine_of_allns
+      · apply List.length_pos_iff.mp; rw [hch.2.1 _ hm]; omega
+      · intro x hx; apply hw; rw [hch.1]
+        exact List.mem_append_left _ (List.mem_flatten.mpr ⟨_, hm, hx⟩)
+    · exact hout _ hm
+
+/-- Nothing but whitespace is lost, added, reordered or restyled: the non-whitespace cells of the lines, in order,
+    are the non-whitespace cells of the text (characters with their formatting). -/
+theorem C16_words_kept (u : UEnv) (f : FmtStr) (columns : Nat) (hc : 1 ≤ columns)
+    (hsp : u.isSpace ' ' = true) :
+    ∃ lines, linesplit u f columns = .ok lines ∧
+      (lines.flatMap cells).filter (nsp u) = (cells f).filter (nsp u) := by
+  obtain ⟨lines, h1, h2⟩ := C16_full u f columns hc hsp
+  refine ⟨lines, h1, ?_⟩
+  have hfil := specWords_filter u (cells f) [] []
+  simp only [List.nil_append] at hfil
+  rw [← hfil]
+  cases hP : specWords u (cells f) [] [] with
+  | nil => rw [hP] at h2; simp only [] at h2; subst h2; simp
+  | cons p0 rest =>
+    obtain ⟨g0, w0⟩ := p0
+    rw [hP] at h2
+    simp only [] at h2
+    obtain ⟨full, last, out, hch, hg, hl⟩ := h2
+    have e : lines.flatMap cells = (lines.map cells).flatten := by simp [List.flatMap]
+    rw [e, hl, List.flatten_append, List.filter_append, hg.filter hsp]
+    simp only [List.flatMap_cons, List.filter_append]
+    rw [hch.1, List.filter_append, List.append_assoc]
+    congr 2
+    simp [List.flatMap, Function.comp_def]
 
 /-! ### non-vacuity / examples (whitespace of three kinds, formatting changing inside a gap) -/
 
